@@ -908,10 +908,10 @@ def run(tier, seed, replay=None):
             u_idx.append(i)
     pool = ThreadPoolExecutor(2)
     fut_model = pool.submit(hg.coq_eval, cm, PID, MODEL_HEADER, m_exprs + u_exprs, "model",
-                            max(10, (len(m_exprs) + len(u_exprs)) // (2 * cm.NCPU) + 1), 1500)
+                            max(10, (len(m_exprs) + len(u_exprs)) // (2 * cm.NCPU) + 1), 1500, BUILD_TARGETS)
     verdicts = []
     try:
-        verdicts = hg.coq_eval(cm, PID, CERT_HEADER, cert_exprs, "cert", max(8, len(cert_exprs) // (2 * cm.NCPU) + 1), 1500)
+        verdicts = hg.coq_eval(cm, PID, CERT_HEADER, cert_exprs, "cert", max(8, len(cert_exprs) // (2 * cm.NCPU) + 1), 1500, BUILD_TARGETS)
     except RuntimeError as e:
         R.proof_broken.append(f"checker evaluation failed: {str(e)[:400]}")
     T["coq_certificates"] = round(time.time() - t0, 1); t0 = time.time()
@@ -1336,7 +1336,7 @@ def targeted_search(R, tier):
                 m_exprs.append("(" + chain_expr(ta, ea, tb, eb, Ea, Eb, r[o]) + ", " + iso_expr(ta, ea, tb, eb, Ea, Eb, r[o]) + ")")
                 m_idx.append((i, o, ta, ea, tb, eb, Ea, Eb))
     try:
-        outs = hg.coq_eval(cm, PID, MODEL_HEADER, m_exprs, "search_model", max(4, len(m_exprs) // cm.NCPU + 1), 1500)
+        outs = hg.coq_eval(cm, PID, MODEL_HEADER, m_exprs, "search_model", max(4, len(m_exprs) // cm.NCPU + 1), 1500, BUILD_TARGETS)
         dummy = dict(bit_exact_stage_comparisons=0, tolerance_stage_comparisons=0, chain_compared=0, chain_skipped_near_tie=0,
                      max_dev=dict(plane=0.0, halfplanes=0.0, project=0.0, force=0.0, chain_poly=0.0, chain_force=0.0), unit_compared=0)
         for (i, o, ta, ea, tb, eb, Ea, Eb), txt in zip(m_idx, outs):
@@ -1345,7 +1345,7 @@ def targeted_search(R, tier):
         R.notes.append(f"search: model evaluation failed {str(e)[:200]}")
     resolve_pending(R, hits, [p for p in pending if p["key"] in keys], stage_ok)
     try:
-        vs = hg.coq_eval(cm, PID, CERT_HEADER, exprs, "search", max(8, len(exprs) // (3 * cm.NCPU) + 1), 1500)
+        vs = hg.coq_eval(cm, PID, CERT_HEADER, exprs, "search", max(8, len(exprs) // (3 * cm.NCPU) + 1), 1500, BUILD_TARGETS)
         for (i, o), v in zip(idx, vs):
             bits = hg.parse_coq_value(v)
             if not all(bits):
